@@ -9,7 +9,6 @@ extern "C" void vp_dealloc_elem(void* p, unsigned long bytes);
 extern "C" void* vp_alloc_tab(unsigned long bytes);                     // long segment table
 extern "C" void vp_dealloc_tab(void* p, unsigned long bytes);
 extern "C" void vp_constructed(void* addr, int val);
-extern "C" void vp_destroyed(void* addr);
 extern "C" void vp_ret(int tid, unsigned long index, void* addr);      // a growth call returned iterator (index, &*it)
 extern "C" void vp_gtal_done(int tid, unsigned long n);                 // grow_to_at_least(n) returned
 extern "C" void vp_sample(int tid, unsigned long index, void* addr);    // address of an existing element seen by a thread
@@ -29,7 +28,6 @@ struct Elem {
   Elem(int x, quiet) : v(x) {}                                   // prototype value, not an element of the vector
   Elem(const Elem& o) : v(o.v) { vp_constructed(this, v); }      // every element construction inside the vector
   Elem() : v(-1) { vp_constructed(this, -1); }
-  ~Elem() { vp_destroyed(this); }
 };
 using V = tbb::concurrent_vector<Elem, vp_allocator<Elem>>;
 using B = V::base_type;
